@@ -51,6 +51,9 @@ CLAIMED = {
     "C28": ("Coq proof (regrouping a key-indexed breakdown by any subset of key positions preserves the total and gives each key the sum of its members; per-Einsum latency is the maximum over components, latency() the sum of these maxima) + differential correspondence on real and synthetic result tables",
             "C28_breakdown_total / C28_breakdown_value (all 16 energy and 8 action flag combinations are instances), C28_energy_scalar, C28_latency; the real Mappings.energy/actions/latency/resource_usage are run for every flag combination (twice, mutation check) on real mapper results and on synthetic tables and compared with the vm_compute-evaluated token-level model (column-name surgery included) and with the Total columns. Partial: that the collected dictionary covers every per-Einsum energy column (the <SEP> key surgery) is tied by the correspondence, not proved.",
             "Coq kernel; integer-valued tables; pandas arithmetic correspondence-only; Total columns are C04's business; component names never equal tensor names (shared namespace in set expressions)"),
+    "C05": ("Coq proof (the code's analytical recursion = loop-nest execution, by induction over the nest with an invariant over parent holder and freshness; closed form; freshness = never visited before) + differential correspondence of evaluate_mapping against the model and a brute-force execution",
+            "C05_reads_writes / C05_invariant: for every chain of loops and holders (any depth, counts, skip flags) the per-level read and write counts of the modelled analyze_storage/analyze_temporal/analyze_compute recursion equal the counts of an execution that iterates every loop; C05_closed_form; C05_fresh_iff_unwritten; C05_energy_latency lifts this to actions, per-component latency, max-latency and energy of whole mappings. The real evaluate_mapping is run on random specs and concrete mappings and every action count, latency and energy column is compared with the vm_compute-evaluated model and with an independent Python execution.",
+            "Coq kernel; class: one Einsum, temporal loops, Memory levels, dense one-variable-per-rank projections, perfect factorisation (spatial loops, Tolls -> C31, imperfect factorisation, copy Einsums outside); value->action scale factors computed by the harness with the documented precedence and checked through the correspondence"),
 }
 
 PENDING_REASON = "check not built yet in this round (planned, see DESIGN.md section 6); not claimed until its proof and correspondence exist"
